@@ -1,5 +1,6 @@
 """Two-player extended nonlocal game."""
 
+import itertools
 from collections import defaultdict
 
 import cvxpy
@@ -103,20 +104,19 @@ class ExtendedNonlocalGame:
         dim_x, dim_y, alice_out, bob_out, alice_in, bob_in = self.pred_mat.shape
 
         max_unent_val = float("-inf")
-        for a_out in range(alice_out):
-            for b_out in range(bob_out):
+        # Alice and Bob each answer with a (deterministic) function of their own question.
+        for a_func in itertools.product(range(alice_out), repeat=alice_in):
+            for b_func in itertools.product(range(bob_out), repeat=bob_in):
                 p_win = np.zeros([dim_x, dim_y], dtype=complex)
                 for x_in in range(alice_in):
                     for y_in in range(bob_in):
-                        p_win += self.prob_mat[x_in, y_in] * self.pred_mat[:, :, a_out, b_out, x_in, y_in]
+                        p_win += (
+                            self.prob_mat[x_in, y_in] * self.pred_mat[:, :, a_func[x_in], b_func[y_in], x_in, y_in]
+                        )
 
-                rho = cvxpy.Variable((dim_x, dim_y), hermitian=True)
-
-                objective = cvxpy.Maximize(cvxpy.real(cvxpy.trace(p_win.conj().T @ rho)))
-
-                constraints = [cvxpy.trace(rho) == 1, rho >> 0]
-                problem = cvxpy.Problem(objective, constraints)
-                unent_val = problem.solve()
+                # The maximum of Re Tr(p_win^* rho) over density operators rho is the largest
+                # eigenvalue of the Hermitian part of p_win.
+                unent_val = np.max(np.linalg.eigvalsh((p_win + p_win.conj().T) / 2))
                 max_unent_val = max(max_unent_val, unent_val)
         return max_unent_val
 
